@@ -97,6 +97,9 @@ func (Prop) Gen(r *core.Rand, tier string) interface{} {
 		k := 1 + r.Intn(6)
 		for i := 0; i < k; i++ {
 			switch x := r.Intn(20); {
+			case x < 2 && c.SessionMode:
+				// a use through Session{PrepareStmt:true} taken inside Connection(fc)
+				prog = append(prog, Op{Kind: "conn", Inner: []Op{genUse(r)}})
 			case x < 11:
 				prog = append(prog, genUse(r))
 			case x < 15:
@@ -366,6 +369,19 @@ func (rs *runState) client(t int, base *gorm.DB) {
 			} else {
 				tx.Rollback()
 			}
+		case "conn":
+			_ = base.Connection(func(ctx *gorm.DB) error {
+				h2 := ctx.Session(&gorm.Session{PrepareStmt: true})
+				if p := rs.psdbOf(h2); p != nil {
+					rs.pmu.Lock()
+					rs.pdbs = append(rs.pdbs, p)
+					rs.pmu.Unlock()
+				}
+				for _, in := range op.Inner {
+					rs.use(h2, t, in, false)
+				}
+				return nil
+			})
 		case "wtx":
 			tx := h.Begin()
 			if tx.Error != nil {
